@@ -213,6 +213,51 @@ def _choice_native(present, which):
     return ok
 
 
+# ---------------------------------------------------------------- mode B: prefix loader with overlapping prefixes
+REG = ["app1", "app10", "app", "b", "app1/x"]
+ASK = ["app1", "app10", "app", "app12", "app1x", "b", "ap", "", "bb", "APP1"]
+LOCALS = ["x", "y/x", "10/x"]
+DELIMS = ["/", "::", "1"]
+
+
+def prefix_ok(reg: List[bool], order: bool, ask: int, local: int, delim: int) -> bool:
+    """
+    pre: len(reg) == len(REG) and 0 <= ask < len(ASK) and 0 <= local < len(LOCALS) and 0 <= delim < len(DELIMS)
+    post: _
+    """
+    regs = [bool(pickb(b)) for b in reg]
+    order = bool(pickb(order))
+    a = ASK[pick(ask, len(ASK))]
+    loc = LOCALS[pick(local, len(LOCALS))]
+    dl = DELIMS[pick(delim, len(DELIMS))]
+    with NoTracing():
+        names = [r for r, on in zip(REG, regs) if on]
+        if order:
+            names = names[::-1]
+        mapping = {}
+        for r in names:
+            mapping[r] = DictLoader({l: "%s>%s" % (r, l) for l in LOCALS})
+        env = Environment(loader=PrefixLoader(mapping, delimiter=dl), cache_size=0)
+        name = a + dl + loc
+        # documented: the part before the first delimiter selects the loader, the rest is passed to it
+        head, sep, rest = name.partition(dl)
+        exp = None
+        if sep and head in mapping and rest in LOCALS:
+            exp = "%s>%s" % (head, rest)
+        try:
+            got = env.get_template(name).render()
+        except TemplateNotFound:
+            got = None
+        try:
+            src = env.loader.get_source(env, name)[0]
+        except TemplateNotFound:
+            src = None
+        if got != exp or src != exp:
+            return False
+        listed = sorted(env.list_templates())
+        return listed == sorted(r + dl + l for r in mapping for l in LOCALS)
+
+
 def conditions(tier, seed):
     th = tier == "thorough"
     to = 300 if th else 45
@@ -227,6 +272,11 @@ def conditions(tier, seed):
         out.append(Cond(f"loader[{kind}]", "fs_ok", mode="B", param={"kind": kind, "maxseg": ms}, timeout=to * 2,
                         witnesses=[[[3]], [[4, 8]], [[4, 0, 0, 6][:ms]], [[11]], [[4, 5, 7]], [[0, 6]], [[9]]],
                         bounds=f"names of 1..{ms} segments from {FRAGS!r} joined by '/', real loader on a scratch tree with a sentinel outside; opened files audited"))
+    out.append(Cond("prefix loader with overlapping prefixes", "prefix_ok", mode="B", param={}, timeout=to * 3,
+                    witnesses=[[[True, True, False, False, False], False, 1, 0, 0], [[True, False, True, True, False], True, 3, 0, 0], [[True, True, True, True, True], False, 0, 2, 2],
+                               [[False, False, True, False, False], False, 4, 1, 1]],
+                    bounds=f"every subset of the registered prefixes {REG} in both registration orders x requested prefix from {ASK} x local names {LOCALS} x delimiters {DELIMS}; "
+                           "get_template, get_source and list_templates against 'the text before the first delimiter selects the loader'"))
     out.append(Cond("choice/prefix order", "choice_ok", mode="B", param={}, timeout=to,
                     witnesses=[[[False, True, True, False, True, True], 0], [[False] * 6, 1]],
                     bounds="3 loaders x 2 names presence matrix (symbolic bools)"))
